@@ -49,18 +49,15 @@ Definition oracle_current_plain (c : config) (l : list entry) : bool :=
    Greedy with backtracking over which file comes next; fuel = number of files. *)
 Fixpoint remove_nth {A} (n : nat) (l : list A) : list A :=
   match n, l with O, _ :: r => r | S k, x :: r => x :: remove_nth k r | _, [] => [] end.
+Fixpoint existsb_from {A} (p : nat -> A -> bool) (i : nat) (l : list A) : bool :=
+  match l with [] => false | x :: r => p i x || existsb_from p (S i) r end.
 Fixpoint tiles (fuel : nat) (files : list bytes) (logged : bytes) : bool :=
   match files with
   | [] => match logged with [] => true | _ => false end
   | _ =>
     match fuel with
     | O => false
-    | S f =>
-      (fix try (i : nat) (cands : list bytes) : bool :=
-         match cands with
-         | [] => false
-         | x :: r => (is_prefix x logged && tiles f (remove_nth i files) (skipn (length x) logged)) || try (S i) r
-         end) O files
+    | S f => existsb_from (fun i x => is_prefix x logged && tiles f (remove_nth i files) (skipn (length x) logged)) O files
     end
   end.
 Definition nonempty (l : list bytes) : list bytes := filter (fun b => match b with [] => false | _ => true end) l.
